@@ -223,6 +223,14 @@ def gen_case(rng):
             sigma0[v] = ["var", rng.choice(FUNCS)]
         else:
             sigma0[v] = gen_term(rng, rng.choice([0, 0, 1, 2]), const_p=0.3)
+    # target-side terms live in their own namespace: a (pre-)bound value may mention a name that is ALSO a free
+    # variable of the template
+    shared_name = None
+    plain = [v for v in free if v in tv and v not in fs]
+    if len(plain) >= 2 and rng.random() < 0.3:
+        v, w = rng.sample(plain, 2)
+        sigma0[v] = rng.choice([["var", w], ["+", ["var", w], ["num", 1]], ["*", ["num", 2], ["var", w]]])
+        shared_name = v
     if cls == "independent":
         e = gen_term(rng, depth)
     else:
@@ -232,6 +240,14 @@ def gen_case(rng):
             e = gen_term(rng, depth)
         if cls == "perturbed":
             e = perturb(rng, e)
+        if shared_name is not None and rng.random() < 0.5:
+            # near miss: the bindings applied one after the other instead of simultaneously
+            try:
+                e = subst(subst(t, {shared_name: sigma0[shared_name]}),
+                          {k: v for k, v in sigma0.items() if k != shared_name})
+                cls = cls + "+sequentially-substituted-target"
+            except ValueError:
+                pass
         if cls == "all-but-one-occurrence":
             multi = [v for v in free if occurrences(t, v) >= 2]
             if multi:
@@ -251,7 +267,10 @@ def gen_case(rng):
         freearg = None
     pre = None
     r = rng.random()
-    if free and r < 0.35:
+    if shared_name is not None and r < 0.8:
+        pre = {shared_name: sigma0[shared_name]}
+        cls = cls + "+prematch-value-mentions-free-name"
+    elif free and r < 0.35:
         v = rng.choice(sorted(set(free)))
         mode = rng.choice(["consistent", "consistent", "inconsistent"])
         if mode == "consistent":
